@@ -47,6 +47,8 @@ FIXED = [
 ]
 
 FIXED += [
+    ("C10", "c4b21e1", "format_size(size, '%.99999999999') (precision beyond i32) and '%.65536' (beyond the formatter's u16) panicked", ["format-precision-overflow", "format-precision-65536"]),
+    ("C10", "69a0b27", "`name from './[a' depth 1 rx`: a malformed pattern in a regexp search root panicked (unwrap of Regex::new)", ["regexp-root-malformed"]),
 ]
 
 
